@@ -50,7 +50,10 @@ func primed(rep *Report, s Setup, g *Gen, upto uint32) (*Run, *World, bool) {
 		res := run.Step(b)
 		rep.Traces++
 		if res.Diff != "" || !res.ImplOK {
-			rep.Note("infrastructure: priming failed at %d: %s %s", h, res.Diff, res.ImplMsg)
+			// the plain chain that prepares the scenario is itself not applied as the model says
+			path := WriteReplay(rep.Property, rep.Scenario+"-priming", Replay{Property: rep.Property, Scenario: rep.Scenario, Seed: g.Seed, Setup: s,
+				What: fmt.Sprintf("priming chain: height %d", h), Detail: []string{res.Diff, res.ImplMsg, res.ModelAns}, Blocks: ChainJSON(run.Chain)})
+			rep.Disagree("reference:priming:"+res.ImplClass, fmt.Sprintf("h=%d %s %s", h, res.Diff, res.ImplMsg), path)
 			run.Close()
 			return nil, nil, false
 		}
@@ -92,8 +95,14 @@ func stepExpectOK(rep *Report, run *Run, b *BlockSpec, seed int64, what string, 
 		}
 		run.Chain = run.Chain[:len(run.Chain)-1]
 		r2 := run.Step(&BlockSpec{Height: b.Height, Time: BlockTime(b.Height)})
-		if !r2.ImplOK || r2.Diff != "" {
-			rep.Note("infrastructure: cannot continue after height %d: %s %s", b.Height, r2.Diff, r2.ImplMsg)
+		if r2.Diff != "" {
+			// the model did not fail where the implementation did (or left another state behind):
+			// a disagreement, on top of the liveness violation recorded above
+			rep.Disagree("lockstep:"+rep.Scenario+":after-failed-block", fmt.Sprintf("h=%d %s", b.Height, r2.Diff), "")
+			return res, false
+		}
+		if !r2.ImplOK {
+			rep.Count("chain-wedged-for-good")
 			return res, false
 		}
 	}
